@@ -1186,3 +1186,6 @@ var FrameRunner = core.Runner{
 		return nil
 	},
 }
+
+// GenFrameLines exposes the raw-frame generator (arp.frame lines) to the C08 handler-body harness.
+func GenFrameLines(c *core.Ctx) []string { return genFrames(c) }
